@@ -25,7 +25,7 @@ use rayon::prelude::*;
 use serde_json::{json, Value};
 
 use crate::c08::Sk;
-use crate::c12::{keylen_bs, seipd1_seal, seipd2_seal};
+use crate::c12::{seipd1_seal, seipd2_seal};
 use crate::c12b::{dh, dh_public, ecdh_kek, ecdh_params, lock_by_plan, mpi, pkt, plain_material};
 use crate::common::*;
 use crate::prim;
